@@ -22,6 +22,7 @@
   driver's `fq` flag); for the exact rational it is `bandwidth_bounds`.
 -/
 import Hy.Proofs.Brutal
+import Hy.Gen.TransPacer
 namespace Hy.Props.C11
 open Hy Hy.Pacer Hy.Brutal
 
@@ -367,5 +368,89 @@ example : (runS (Brutal.new 1000000 false) [.ack 3600000000000 30 0,
     .ack 3606000000000 20 10]).ackRate = .one := by decide
 example : Chrono 0 [.ack 3600000000000 30 0, .send 3600000000001 1280 1000000, .ack 3601000000000 20 10] := by
   simp [Chrono]
+
+/-! ### pacer.go as TRANSLATED from the current Go source equals the model, function by function
+
+`Hy.Gen.TransPacer.*` is regenerated on every run by `verifgen translate` from the text of
+`maxBurstSize`, `Budget`, `SentPacket`, `TimeUntilSend`, `SetMaxDatagramSize` in
+core/internal/congestion/common/pacer.go (go/ast → Lean: int64/uint64 wrap-around, truncated
+division and the division-by-zero panic explicit; the package constants `maxBurstPackets`,
+`maxBurstPacingDelayMultiplier` resolved to their current values; receiver fields and the value
+returned by `getBandwidth()` are parameters; `congestion.ByteCount`, `monotime.Time`,
+`time.Duration` are int64 and `Time.Sub/Add/IsZero`, `Duration.Nanoseconds` are wrapped
+subtraction / addition / `= 0` / the identity, as in the quic-go fork — trusted).
+The theorems hold for ALL integer field values, times, sizes and bandwidths — no range
+hypothesis, no sampling: the hand-written `Hy.Pacer` functions the conformance and wake-up theorems
+above are about ARE the repository's current arithmetic.  `congestion.MinPacingDelay` is a parameter
+of the translation, instantiated with the value read from the compiled package.
+The proofs normalise both sides modulo commutativity of `+ * min max` (`go_ac_norm`), so operand
+swaps and renamings in the Go source do not disturb them. -/
+
+/-- `congestion.MinPacingDelay` in nanoseconds, as read from the compiled package -/
+def minPacingDelay : Int := ((Gen.MinPacingDelayNs : Nat) : Int)
+
+theorem i64_eq_wrap64 (x : Int) : GoInt.i64 x = wrap64 x := rfl
+theorem u64_eq_wrapU64 (x : Int) : GoInt.u64 x = wrapU64 x := rfl
+
+set_option linter.unusedSimpArgs false
+
+theorem maxBurstSize_translation_eq (p : Pacer) (bw : Int) :
+    Gen.TransPacer.Pacer_maxBurstSize bw p.maxDatagramSize minPacingDelay = maxBurstSize p bw := by
+  unfold Gen.TransPacer.Pacer_maxBurstSize maxBurstSize
+  have e : burstNs = 4000000 := by decide
+  have e1 : minPacingDelay = 1000000 := by decide
+  have e2 : (((Gen.maxBurstPackets : Nat) : Int)) = 10 := by decide
+  have e3 : wrap64 4000000 = 4000000 := by decide
+  simp only [e, e1, e2, i64_eq_wrap64, Int.reduceMul, e3] <;> go_ac_rfl
+
+theorem budget_translation_eq (p : Pacer) (bw now : Int) :
+    Gen.TransPacer.Pacer_Budget p.budgetAtLastSent bw p.lastSentTime p.maxDatagramSize now minPacingDelay
+      = budget p bw now := by
+  unfold Gen.TransPacer.Pacer_Budget budget
+  simp only [maxBurstSize_translation_eq, i64_eq_wrap64, overflowBudget, gt_iff_lt, ge_iff_le]
+  go_ac_norm
+  split
+  · rfl
+  · go_split
+
+/-- SentPacket assigns exactly `budgetAtLastSent` and `lastSentTime` (the translator's output tuple is
+    the set of receiver fields the Go function assigns), with the model's values -/
+theorem sentPacket_translation_eq (p : Pacer) (bw t size : Int) :
+    Gen.TransPacer.Pacer_SentPacket p.budgetAtLastSent bw p.lastSentTime p.maxDatagramSize t size minPacingDelay
+      = ((sentPacket p bw t size).budgetAtLastSent, (sentPacket p bw t size).lastSentTime)
+    ∧ (sentPacket p bw t size).maxDatagramSize = p.maxDatagramSize := by
+  refine ⟨?_, rfl⟩
+  unfold Gen.TransPacer.Pacer_SentPacket sentPacket
+  simp only [budget_translation_eq, i64_eq_wrap64, gt_iff_lt, ge_iff_le]
+  go_ac_norm
+  first
+  | (go_split; done)
+  | (split <;> split <;> simp only [Prod.mk.injEq, and_true] <;> unfold wrap64 <;> omega)
+
+/-- TimeUntilSend, including its panic: the translated function divides by `uint64(getBandwidth())`
+    and panics exactly when the model does -/
+theorem timeUntilSend_translation_eq (p : Pacer) (bw : Int) :
+    Gen.TransPacer.Pacer_TimeUntilSend p.budgetAtLastSent bw p.lastSentTime p.maxDatagramSize minPacingDelay
+      = Pacer.timeUntilSend p bw := by
+  unfold Gen.TransPacer.Pacer_TimeUntilSend Pacer.timeUntilSend ceilDivU
+  have e1 : ∀ x : Int, wrap64 (wrap64 x * 1) = wrap64 x := by intro x; unfold wrap64; omega
+  have e2 : ∀ x : Int, wrap64 (1 * wrap64 x) = wrap64 x := by intro x; unfold wrap64; omega
+  simp only [i64_eq_wrap64, u64_eq_wrapU64, minPacingDelay, e1, e2, gt_iff_lt, ge_iff_le]
+  go_ac_norm
+  split
+  · rfl
+  · by_cases hb : wrapU64 bw = 0
+    · simp [hb]
+    · simp only [hb, ne_eq, not_false_eq_true, not_true_eq_false, ↓reduceIte]
+      go_split
+
+theorem setMaxDatagramSize_translation_eq (p : Pacer) (s : Int) :
+    Gen.TransPacer.Pacer_SetMaxDatagramSize p.maxDatagramSize s = (setMaxDatagramSize p s).maxDatagramSize := rfl
+
+/-- the translation computes: 1 MB/s, 1280-byte datagrams, 100 bytes of budget left → wake up after
+    ⌈1180·10⁹/10⁶⌉ = 1 180 000 ns; a zero bandwidth panics -/
+example : Gen.TransPacer.Pacer_TimeUntilSend 100 1000000 3600000000000 1280 minPacingDelay
+    = .ok 3600001180000 := by decide
+example : Gen.TransPacer.Pacer_TimeUntilSend 100 0 3600000000000 1280 minPacingDelay = .panic := by decide
 
 end Hy.Props.C11
